@@ -43,7 +43,10 @@ pub fn segs(r: &mut Rng, lo: usize, hi: usize) -> String {
 /// Pattern part of a network rule (no options).
 pub fn pattern(r: &mut Rng) -> String {
     let mut s = String::new();
-    match r.below(10) {
+    match r.below(12) {
+        10 => {
+            // pattern-less rule (only meaningful with options: `$image`, `@@$script,domain=..`)
+        }
         0 | 1 | 2 | 3 => {
             // hostname anchored
             s.push_str("||");
@@ -72,7 +75,7 @@ pub fn pattern(r: &mut Rng) -> String {
         }
         4 => {
             s.push('|');
-            s.push_str(if r.chance(1, 2) { "https://" } else { "http://" });
+            s.push_str(r.pick(&["https://", "http://", "https://", "http://", "ws://", "wss://"]));
             if r.chance(2, 3) {
                 s.push_str(r.pick(HOSTS));
                 s.push('/');
@@ -143,6 +146,44 @@ pub fn options(r: &mut Rng, modifiers: bool) -> Vec<String> {
         }
     }
     o
+}
+
+/// 2-5 rules sharing one pattern and differing in their options / exception marker, so that they
+/// share their bucket candidates: same-bucket neighbours with different tags, types, categories.
+pub fn siblings(r: &mut Rng, modifiers: bool) -> Vec<String> {
+    let p = pattern(r);
+    let n = r.range(2, 5);
+    let mut v = vec![];
+    for _ in 0..n {
+        let mut s = String::new();
+        if r.chance(2, 5) {
+            s.push_str("@@");
+        }
+        s.push_str(&p);
+        let mut o = options(r, modifiers);
+        if r.chance(1, 3) && !o.iter().any(|x| x.starts_with("tag=")) {
+            o.push(format!("tag={}", r.pick(TAGS)));
+        }
+        if !o.is_empty() {
+            s.push('$');
+            s.push_str(&o.join(","));
+        }
+        v.push(s);
+    }
+    v
+}
+
+/// A rule list of about `n` rules: grammar rules, sibling groups, duplicates.
+pub fn rule_list(r: &mut Rng, n: usize, modifiers: bool) -> Vec<String> {
+    let mut lines: Vec<String> = vec![];
+    while lines.len() < n {
+        if r.chance(1, 4) {
+            lines.extend(siblings(r, modifiers));
+        } else {
+            lines.push(rule(r, modifiers));
+        }
+    }
+    lines
 }
 
 /// A complete network rule line.
@@ -216,7 +257,12 @@ pub fn url_for(r: &mut Rng, rule_line: &str) -> String {
         };
         (host, p[end..].to_string())
     } else if let Some(p) = pat.strip_prefix('|') {
-        return p.trim_end_matches('|').replace('^', "/").replace('*', "zz");
+        let u = p.trim_end_matches('|').replace('^', "/").replace('*', "zz");
+        if u.ends_with("://") {
+            // scheme-only pattern (`|ws://`): any URL of that scheme
+            return format!("{}{}/{}", u, r.pick(HOSTS), segs(r, 0, 2).replace('^', "/").replace('*', "-"));
+        }
+        return u;
     } else {
         ((r.pick(HOSTS)).to_string(), format!("/{}", pat))
     };
